@@ -37,12 +37,15 @@ def main():
     obs = copy.deepcopy(ifile.obs)
     ens = copy.deepcopy(ifile.ensemble)
     ens = np.sort(ens, axis=3)
+    # The file does not need to have observations (only the PIT values need
+    # them), so take the array sizes from the ensemble
+    shape = list(ens.shape[0:3])
     if len(args.thresholds) > 0:
-        cdf = np.zeros([obs.shape[0], obs.shape[1], obs.shape[2], len(args.thresholds)])
+        cdf = np.zeros(shape + [len(args.thresholds)])
     if len(args.quantiles) > 0:
-        x = np.zeros([obs.shape[0], obs.shape[1], obs.shape[2], len(args.quantiles)])
+        x = np.zeros(shape + [len(args.quantiles)])
     if args.pit:
-        pit = np.nan * np.zeros([obs.shape[0], obs.shape[1], obs.shape[2]])
+        pit = np.nan * np.zeros(shape)
 
     M = ens.shape[3]
 
